@@ -78,6 +78,23 @@ pub fn check_config(rep: &mut Report, n: u32, buckets: u16, partitions: u16, rf:
     rep.evaluations += 1;
     let nn = n as usize;
     let witness = json!({"nodes": n, "buckets": buckets, "partitions": partitions, "rf": rf});
+    // the gate itself at the edge of the index range: whatever validation accepts must satisfy the property too
+    for idx in [n, n.saturating_add(1), u32::MAX] {
+        let cfg = make_config(n, idx, buckets, partitions, rf);
+        let accepted = matches!(std::panic::catch_unwind(|| cfg.validate()), Ok(Ok(ref e)) if e.is_empty());
+        if !accepted {
+            rep.count("out_of_range_node_index_rejected_by_validation", 1);
+            continue;
+        }
+        let cb: BTreeSet<u16> = match std::panic::catch_unwind(|| cfg.assigned_buckets()) { Ok(Ok(b)) => b.iter().copied().collect(), _ => BTreeSet::new() };
+        let tb: BTreeSet<u16> = match std::panic::catch_unwind(|| TopologyManager::new(node_ref(0), idx as usize, nn, partitions, buckets, rf, Duration::from_secs(30))) {
+            Ok(m) => m.assigned_partitions.iter().map(|p| p % buckets).collect(),
+            Err(_) => BTreeSet::new(),
+        };
+        if cb != tb {
+            rep.violation("C13:placement:validation-accepts-node-index-out-of-range", format!("validation accepts node index {idx} of {n} nodes ({witness}): that node opens buckets {:?} while the topology assigns it partitions in buckets {:?}", cb.iter().take(8).collect::<Vec<_>>(), tb.iter().take(8).collect::<Vec<_>>()), json!({"nodes": n, "buckets": buckets, "partitions": partitions, "rf": rf, "node": idx}));
+        }
+    }
     let mut cfg_parts: Vec<HashSet<u16>> = Vec::with_capacity(nn);
     let mut cfg_buckets: Vec<HashSet<u16>> = Vec::with_capacity(nn);
     let mut mismatch_nodes = 0;
